@@ -857,3 +857,128 @@ Lemma C10_nonvacuous_proof :
 Proof.
   repeat split; try (vm_compute; reflexivity); repeat constructor.
 Qed.
+
+(* ---------- todouble: mantissa m (< 2^48, exactly a double) times 2^e approximates val with relative error < 2^-32 *)
+Lemma fold_rev_val l : fold_left (fun v d => v * c10_B + d) (rev l) 0 = c10_val l.
+Proof.
+  induction l as [|d r IH]; [reflexivity|].
+  cbn [rev]. rewrite fold_left_app. cbn [fold_left]. rewrite IH, val_cons, c10_B_val. lia.
+Qed.
+
+Lemma lz_spec ra : ra = repeat 0 (c10_leading_zeros ra) ++ skipn (c10_leading_zeros ra) ra /\
+  (c10_leading_zeros ra <= length ra)%nat /\
+  match skipn (c10_leading_zeros ra) ra with d :: _ => d <> 0 | [] => True end.
+Proof.
+  induction ra as [|d r (E & L & T)]; [repeat split; auto|].
+  cbn [c10_leading_zeros]. destruct (N.eqb_spec d 0) as [->|Hd].
+  - cbn [repeat app skipn length]. repeat split; [f_equal; exact E|lia|exact T].
+  - cbn [repeat app skipn length]. repeat split; [lia|exact Hd].
+Qed.
+
+Lemma val_last_nonzero hd : wf hd -> (match rev hd with d :: _ => d <> 0 | [] => True end) -> (0 < length hd)%nat ->
+  Bp (length hd - 1) <= c10_val hd.
+Proof.
+  intros Hw Hd Hl. destruct (rev hd) as [|d t] eqn:E.
+  - assert (hd = []) by (rewrite <- (rev_involutive hd), E; reflexivity). subst hd. cbn in Hl. lia.
+  - assert (Eh : hd = rev t ++ [d]) by (rewrite <- (rev_involutive hd), E; reflexivity). subst hd.
+    rewrite val_app, val_cons, val_nil, app_length, rev_length. cbn [length].
+    replace (length t + 1 - 1)%nat with (length t) by lia. pose proof (Bp_pos (length t)). nia.
+Qed.
+
+Lemma todouble_spec a : wf a ->
+  let '(m, e) := c10_todouble a in
+  m < 2 ^ 48 /\ m * 2 ^ e <= c10_val a /\ c10_val a < (m + 1) * 2 ^ e /\ (e = 0 \/ 2 ^ 32 <= m).
+Proof.
+  intros Ha. unfold c10_todouble, c10_first_in_zero_range.
+  assert (E3 : N.to_nat (c10_param_double_digits / c10_bits) = 3%nat) by reflexivity. rewrite E3. clear E3.
+  destruct (lz_spec (rev a)) as (E & L & T). rewrite rev_length in L.
+  set (z := c10_leading_zeros (rev a)) in *.
+  set (hd := rev (skipn z (rev a))).
+  assert (Ea : a = hd ++ repeat 0 z).
+  { rewrite <- (rev_involutive a) at 1. rewrite E at 1. rewrite rev_app_distr. unfold hd. f_equal.
+    clear. induction z as [|z IH]; [reflexivity|]. cbn [repeat rev]. rewrite IH. clear. induction z; cbn; [reflexivity|f_equal; assumption]. }
+  assert (Lh : length hd = (length a - z)%nat) by (unfold hd; rewrite rev_length, skipn_length, rev_length; reflexivity).
+  assert (Wh : wf hd) by (unfold hd; apply Forall_rev, wf_skipn, Forall_rev; exact Ha).
+  assert (Th : match rev hd with d :: _ => d <> 0 | [] => True end) by (unfold hd; rewrite rev_involutive; exact T).
+  assert (Va : c10_val a = c10_val hd) by (rewrite Ea at 1; rewrite val_app, val_repeat0; lia).
+  set (first := (length a - z)%nat) in *.
+  set (last := if (3 <? first)%nat then (first - 3)%nat else 0%nat).
+  assert (Hlast : (last <= first)%nat) by (unfold last; destruct (Nat.ltb_spec 3 first); lia).
+  assert (Es : firstn (first - last) (skipn last a) = skipn last hd).
+  { rewrite Ea at 1. rewrite skipn_app. replace (last - length hd)%nat with 0%nat by lia. cbn [skipn].
+    rewrite firstn_app, skipn_length, Lh. replace (first - last - (first - last))%nat with 0%nat by lia.
+    cbn [firstn]. rewrite app_nil_r. apply firstn_all2. rewrite skipn_length. lia. }
+  rewrite Es, fold_rev_val.
+  assert (Vh : c10_val hd = c10_val (firstn last hd) + Bp last * c10_val (skipn last hd)).
+  { rewrite <- (firstn_skipn last hd) at 1. rewrite val_app, firstn_length_le by lia. reflexivity. }
+  pose proof (val_bound _ (wf_firstn last hd Wh)) as Blow. rewrite firstn_length_le in Blow by lia.
+  pose proof (val_bound _ (wf_skipn last hd Wh)) as Bhi. rewrite skipn_length, Lh in Bhi.
+  assert (Ee : 2 ^ (c10_bits * N.of_nat last) = Bp last) by (rewrite Bp_pow2, c10_bits_16; reflexivity).
+  rewrite Ee, Va, Vh. set (m := c10_val (skipn last hd)) in *. set (lo := c10_val (firstn last hd)) in *.
+  assert (Hm48 : m < 2 ^ 48).
+  { apply N.lt_le_trans with (Bp (first - last)); [exact Bhi|]. replace (2 ^ 48) with (Bp 3) by (rewrite Bp_pow2; reflexivity).
+    apply Bp_mono. unfold last. destruct (Nat.ltb_spec 3 first); lia. }
+  repeat split; try lia.
+  unfold last in *. destruct (Nat.ltb_spec 3 first) as [H3|H3]; [right|left; rewrite c10_bits_16; reflexivity].
+  (* three digits kept, the top one is non-zero *)
+  assert (Ws : wf (skipn (first - 3) hd)) by (apply wf_skipn; exact Wh).
+  assert (Ls : length (skipn (first - 3) hd) = 3%nat) by (rewrite skipn_length; lia).
+  assert (Ts : match rev (skipn (first - 3) hd) with d :: _ => d <> 0 | [] => True end).
+  { rewrite <- (firstn_skipn (first - 3) hd) in Th. rewrite rev_app_distr in Th.
+    destruct (rev (skipn (first - 3) hd)) as [|d t] eqn:Er; [|exact Th].
+    apply (f_equal (@length N)) in Er. rewrite rev_length, Ls in Er. discriminate. }
+  pose proof (val_last_nonzero _ Ws Ts) as Hv. rewrite Ls in Hv. specialize (Hv ltac:(lia)).
+  replace (2 ^ 32) with (Bp 2) by (rewrite Bp_pow2; reflexivity). exact Hv.
+Qed.
+
+Lemma P_todouble n a : c10_wf n a ->
+  let '(m, e) := c10_todouble a in
+  m < 2 ^ 48 /\ m * 2 ^ e <= c10_val a /\ (c10_val a - m * 2 ^ e) * 2 ^ 32 < c10_val a \/ c10_val a = m * 2 ^ e /\ m < 2 ^ 48.
+Proof.
+  intros Ha. pose proof (todouble_spec a (proj1 (wf_of _ _ Ha))) as H. destruct (c10_todouble a) as [m e].
+  destruct H as (H48 & Hle & Hlt & [->|Hm]).
+  - right. rewrite N.pow_0_r in *. split; [lia|assumption].
+  - left. repeat split; try assumption.
+    assert (0 < 2 ^ e) by (apply N.neq_0_lt_0, N.pow_nonzero; discriminate).
+    nia.
+Qed.
+
+(* ---------- print: 4n hex characters that read back as the value *)
+From Coq Require Import Ascii.
+Lemma hexchar_roundtrip x : x < 16 -> c10_hexdigit_val (c10_hexchar x) = x.
+Proof.
+  intros Hx.
+  assert (x = 0 \/ x = 1 \/ x = 2 \/ x = 3 \/ x = 4 \/ x = 5 \/ x = 6 \/ x = 7 \/ x = 8 \/ x = 9 \/ x = 10 \/
+          x = 11 \/ x = 12 \/ x = 13 \/ x = 14 \/ x = 15) as H by lia.
+  repeat (destruct H as [H|H]); subst x; reflexivity.
+Qed.
+
+Lemma print_digit_fold d acc : d < 65536 ->
+  fold_left (fun v c => v * 16 + c10_hexdigit_val c) (c10_print_digit d) acc = acc * 65536 + d.
+Proof.
+  intros Hd. unfold c10_print_digit. cbn [map fold_left].
+  assert (L15 : forall y, N.land y 15 = y mod 16) by (intro y; change 15 with (N.ones 4); apply N.land_ones).
+  rewrite !L15, !N.shiftr_div_pow2.
+  rewrite !hexchar_roundtrip by (apply N.mod_lt; lia).
+  change (2 ^ (4 * 3)) with 4096. change (2 ^ (4 * 2)) with 256. change (2 ^ (4 * 1)) with 16. change (2 ^ (4 * 0)) with 1.
+  lia.
+Qed.
+
+Lemma print_fold ra : forall acc, wf ra ->
+  fold_left (fun v c => v * 16 + c10_hexdigit_val c) (flat_map c10_print_digit ra) acc = acc * Bp (length ra) + c10_val (rev ra) /\
+  length (flat_map c10_print_digit ra) = (4 * length ra)%nat.
+Proof.
+  induction ra as [|d r IH]; intros acc Hw.
+  - cbn [flat_map fold_left length rev]. rewrite val_nil, Bp_0. split; [lia|reflexivity].
+  - inversion Hw as [|? ? Hd Hr]; subst. unfold digit in Hd.
+    cbn [flat_map length rev]. rewrite fold_left_app, print_digit_fold by assumption.
+    destruct (IH (acc * 65536 + d) Hr) as [V L]. rewrite V. split.
+    + rewrite val_app, val_cons, val_nil, rev_length, Bp_S. lia.
+    + rewrite app_length, L. cbn. lia.
+Qed.
+
+Lemma P_print n a : c10_wf n a -> c10_hexval (c10_print a) = c10_val a /\ length (c10_print a) = (4 * n)%nat.
+Proof.
+  intros Ha. destruct (wf_of _ _ Ha) as [Wa La]. unfold c10_hexval, c10_print.
+  destruct (print_fold (rev a) 0 (Forall_rev Wa)) as [V L]. rewrite rev_involutive, rev_length in *. split; [rewrite V; lia|congruence].
+Qed.
